@@ -107,3 +107,133 @@ func TestGovcReplayStrandRun(t *testing.T) {
 	}
 	fmt.Println("NOT-REPRODUCED: no goroutine of World.Run is left blocked after a timeout")
 }
+
+// ---- C05: join soundness / completeness against a brute-force reference -------
+
+// govcRefApply: all head instances of rule r over facts, by enumerating every
+// assignment of the rule's variables to terms occurring in the facts.
+func govcRefApply(r Rule, facts []Fact) map[string]bool {
+	varSet := map[Variable]bool{}
+	for _, p := range r.Body {
+		for _, t := range p.Terms {
+			if v, ok := t.(Variable); ok {
+				varSet[v] = true
+			}
+		}
+	}
+	var vars []Variable
+	for v := range varSet {
+		vars = append(vars, v)
+	}
+	var consts []Term
+	seen := map[string]bool{}
+	for _, f := range facts {
+		for _, t := range f.Predicate.Terms {
+			if !seen[t.String()] {
+				seen[t.String()] = true
+				consts = append(consts, t)
+			}
+		}
+	}
+	out := map[string]bool{}
+	asg := map[Variable]Term{}
+	var rec func(i int)
+	rec = func(i int) {
+		if i == len(vars) {
+			for _, p := range r.Body {
+				found := false
+				for _, f := range facts {
+					if f.Predicate.Name != p.Name || len(f.Predicate.Terms) != len(p.Terms) {
+						continue
+					}
+					ok := true
+					for j, t := range p.Terms {
+						want := t
+						if v, isVar := t.(Variable); isVar {
+							want = asg[v]
+						}
+						if !want.Equal(f.Predicate.Terms[j]) {
+							ok = false
+						}
+					}
+					if ok {
+						found = true
+					}
+				}
+				if !found {
+					return
+				}
+			}
+			head := fmt.Sprintf("%d(", r.Head.Name)
+			for _, t := range r.Head.Terms {
+				if v, isVar := t.(Variable); isVar {
+					t = asg[v]
+				}
+				head += t.String() + ","
+			}
+			out[head+")"] = true
+			return
+		}
+		for _, c := range consts {
+			asg[vars[i]] = c
+			rec(i + 1)
+		}
+	}
+	if len(vars) == 0 || len(consts) > 0 {
+		rec(0)
+	}
+	return out
+}
+
+func TestGovcReplayJoin(t *testing.T) {
+	edge, pair, out := String(1030), String(1031), String(1032)
+	facts := []Fact{
+		{Predicate{Name: edge, Terms: []Term{Integer(1), Integer(2)}}},
+		{Predicate{Name: edge, Terms: []Term{Integer(2), Integer(3)}}},
+		{Predicate{Name: edge, Terms: []Term{Integer(3), Integer(3)}}},
+		{Predicate{Name: pair, Terms: []Term{Integer(3), Integer(30)}}},
+		{Predicate{Name: pair, Terms: []Term{Integer(2), Integer(20)}}},
+	}
+	x, y, z := Variable(0), Variable(1), Variable(2)
+	rules := []Rule{
+		{Head: Predicate{Name: out, Terms: []Term{x}}, Body: []Predicate{{Name: edge, Terms: []Term{x, x}}}},
+		{Head: Predicate{Name: out, Terms: []Term{x, y}}, Body: []Predicate{{Name: edge, Terms: []Term{x, x}}, {Name: pair, Terms: []Term{x, y}}}},
+		{Head: Predicate{Name: out, Terms: []Term{x, z}}, Body: []Predicate{{Name: edge, Terms: []Term{x, y}}, {Name: edge, Terms: []Term{y, z}}}},
+		{Head: Predicate{Name: out, Terms: []Term{y}}, Body: []Predicate{{Name: pair, Terms: []Term{x, y}}, {Name: edge, Terms: []Term{x, x}}}},
+		{Head: Predicate{Name: out, Terms: []Term{x}}, Body: []Predicate{{Name: edge, Terms: []Term{x, Integer(3)}}}},
+	}
+	for rot := 0; rot < len(facts); rot++ {
+		fs := FactSet(append(append([]Fact{}, facts[rot:]...), facts[:rot]...))
+		for ri, r := range rules {
+			want := govcRefApply(r, fs)
+			got := &FactSet{}
+			if err := r.Apply(&fs, got, &SymbolTable{}); err != nil {
+				fmt.Printf("NOT-REPRODUCED: Apply error %v\n", err)
+				return
+			}
+			gotSet := map[string]bool{}
+			for _, f := range *got {
+				s := fmt.Sprintf("%d(", f.Predicate.Name)
+				for _, tm := range f.Predicate.Terms {
+					s += tm.String() + ","
+				}
+				gotSet[s+")"] = true
+			}
+			for k := range gotSet {
+				if !want[k] {
+					fmt.Printf("REPRODUCED: rule #%d over fact rotation %d derives %s, which no consistent substitution of the body produces (reference: %v)\n", ri, rot, k, want)
+					t.Fail()
+					return
+				}
+			}
+			for k := range want {
+				if !gotSet[k] {
+					fmt.Printf("REPRODUCED: rule #%d over fact rotation %d misses %s (reference: %v, got %v)\n", ri, rot, k, want, gotSet)
+					t.Fail()
+					return
+				}
+			}
+		}
+	}
+	fmt.Println("NOT-REPRODUCED: rule application agrees with the brute-force reference on the join corpus")
+}
